@@ -532,7 +532,11 @@ func asDataProcessor(queryAgg *structs.QueryAggregators, queryInfo *query.QueryI
 	} else if queryAgg.GentimesExpr != nil {
 		return NewGentimesDP(queryAgg.GentimesExpr)
 	} else if queryAgg.InputLookupExpr != nil {
-		return NewInputLookupDP(queryAgg.InputLookupExpr)
+		dp := NewInputLookupDP(queryAgg.InputLookupExpr)
+		if queryInfo != nil {
+			dp.processor.(*inputlookupProcessor).orgid = queryInfo.GetOrgId()
+		}
+		return dp
 	} else if queryAgg.HeadExpr != nil {
 		return NewHeadDP(queryAgg.HeadExpr)
 	} else if queryAgg.MakeMVExpr != nil {
